@@ -76,7 +76,7 @@ MANIFEST = dict(
                 "model tied to the real mux + Pipeline + Proxy + adaptors over loopback sockets on every run, plus an independent decidable checker on the "
                 "implementation's own observables (proved sound for the ideal model)."),
     level_note=("Trusted: Coq kernel + vm_compute; hand-written model validated on sampled cases only; net/http, gzip, net/url behaviour supplied as oracles / observed; "
-                "four defects of the unchanged code are pinned as known findings (quirk flags) with proposed fixes."),
+                "five defects found in the pinned code (quirk flags, refutation theorems, corpus witnesses) were repaired by fix: commits; their entries are `fixed` and suppress nothing."),
     technique="Coq proof (stage invariants over the response pipeline, induction over header maps) + model/implementation correspondence by vm_compute over real loopback traffic",
 )
 
